@@ -329,6 +329,45 @@ theorem resized_covers (t : TMap) (ext j : Nat) : (resized t ext).covers j = t.c
 example : (List.range 6).map (Types.pair 0 (Types.fieldVector 0 3 (basic 1)) 3 (basic 1) 5).covers
     = [true, true, true, true, false, false] := by decide
 
+/-- **the resize step.**  The extent of the pair / IndexPair / ParallelLocalIndex datatypes is the `sizeof` handed to
+`MPI_Type_create_resized`, whatever the members are and wherever they end (tail padding, members that MPI only knows
+as bytes) — the stride of arrays (`typemap_transfers_exactly_strided`) depends on exactly this. -/
+theorem resized_extents (off1 off2 size offA : Nat) (t1 t2 c : TMap) :
+    (Types.pair off1 t1 off2 t2 size).extent = size ∧ (Types.indexPair off1 t1 off2 t2 size).extent = size ∧
+      (Types.localIndex offA c size).extent = size := ⟨rfl, rfl, rfl⟩
+
+/-- a pair communicates exactly what its two members communicate, for *arbitrary* member datatypes (pairs of pairs,
+of FieldVectors, of byte blobs) -/
+theorem pair_covers (off1 off2 size : Nat) (t1 t2 : TMap) (j : Nat) :
+    (Types.pair off1 t1 off2 t2 size).covers j = true ↔
+      (off1 ≤ j ∧ t1.covers (j - off1) = true) ∨ (off2 ≤ j ∧ t2.covers (j - off2) = true) :=
+  Proofs.pair_covers off1 off2 size t1 t2 j
+
+/-- **arrays of pairs.**  `count` pairs stride by `sizeof(pair)`: cell `i` is overwritten iff its pair index is
+`< n` and its offset inside the pair lies in a communicated cell of `first` or `second`. -/
+theorem pair_array_transfers {α} (off1 off2 size : Nat) (t1 t2 : TMap)
+    (h1 : ∀ b ∈ t1.blocks, off1 + b.1 + b.2 ≤ size) (h2 : ∀ b ∈ t2.blocks, off2 + b.1 + b.2 ≤ size) (hpos : 0 < size)
+    (n : Nat) (src dst : List α) (i : Nat) :
+    (transferN (Types.pair off1 t1 off2 t2 size) n src 0 dst 0)[i]? =
+      if i / size < n ∧ ((off1 ≤ i % size ∧ t1.covers (i % size - off1) = true) ∨
+                         (off2 ≤ i % size ∧ t2.covers (i % size - off2) = true))
+      then ovw src[i]? dst[i]? else dst[i]? := by
+  rw [typemap_transfers_exactly_strided _ (Proofs.pair_wf off1 off2 size t1 t2 h1 h2) hpos]
+  have hext : (Types.pair off1 t1 off2 t2 size).extent = size := rfl
+  simp only [hext, Nat.zero_le, true_and, Nat.sub_zero, Nat.zero_add, Proofs.pair_covers]
+
+-- pair<long long, char> with one padding cell (sizeof = 3 cells): with the resize step two pairs are moved
+-- correctly; with the bare struct (extent = 2, what MPI computes when it only sees bytes) the second pair is read
+-- from and written to the wrong cells
+example : transferN (Types.pair 0 (contiguous 1 (basic 1)) 1 (basic 1) 3) 2 [1, 2, 0, 3, 4, 0] 0 [9, 9, 9, 9, 9, 9] 0
+      = [1, 2, 9, 3, 4, 9] ∧
+    transferN (struct [(0, 1, contiguous 1 (basic 1)), (1, 1, basic 1)]) 2 [1, 2, 0, 3, 4, 0] 0 [9, 9, 9, 9, 9, 9] 0
+      = [1, 2, 0, 3, 9, 9] := by decide
+
+-- the hypotheses hold for the nested pair<pair<long long,char>,short> of the harness at byte level
+example : (∀ b ∈ (Types.pair 0 (contiguous 8 (basic 1)) 8 (basic 1) 16).blocks, 0 + b.1 + b.2 ≤ 24) ∧
+    (∀ b ∈ (basic 2).blocks, 16 + b.1 + b.2 ≤ 24) := by decide
+
 /-- **traits_table_sound.**  Every line `ComposeMPITraits(p, m)` of the current mpitraits.hh maps the C++ type `p` to
 the predefined datatype that the MPI standard defines for `p`; no type is listed twice.  (The table is regenerated
 from the source on every run.) -/
@@ -365,7 +404,7 @@ theorem gatherv_untouched {α} (tm : TMap) (hwf : tm.wf) (hpos : 0 < tm.extent) 
   rw [Proofs.gathervAt_eq_fold]
   exact Proofs.gathervFold_untouched tm hwf hpos segs out i h
 
--- reversed layout with a gap: rank 0's two ints at 3.., rank 1's one int at 0; cell 1 in rank 1's… no: untouched
+-- reversed layout with a gap: rank 0's two ints land at 3 and 4, rank 1's int at 0, cells 1 and 2 stay untouched
 example : Spec.gathervAt (full 1) [[1, 2], [3]] [2, 1] [3, 0] [9, 9, 9, 9, 9] = [3, 9, 9, 1, 2] := by decide
 example : Proofs.inSeg (full 1) 2 3 4 ∧ ¬ Proofs.inSeg (full 1) 1 0 4 := by decide
 
@@ -606,9 +645,10 @@ theorem seq_source_gather {α} (e : Nat) (inp out : List α) (len root : Nat) :
   refine ⟨?_, rfl⟩
   simpa [Gen.Seq.gather_4, Seq.gather] using Proofs.forCopy_eq_copyLoop e inp out 0 0 len
 
-theorem seq_source_gatherv {α} (e : Nat) (inp : List α) (sendLen : Nat) (out : List α) (recvLen displ root : Nat) :
-    Gen.Seq.gatherv_6 e inp sendLen out recvLen displ root = Seq.gatherv e inp sendLen out recvLen displ root ∧
-    Gen.Seq.allgatherv_5 e inp sendLen out recvLen displ = Seq.allgatherv e inp sendLen out recvLen displ := by
+-- (the documented precondition of the v-variants on one process: the receive count is the send count)
+theorem seq_source_gatherv {α} (e : Nat) (inp : List α) (sendLen : Nat) (out : List α) (displ root : Nat) :
+    Gen.Seq.gatherv_6 e inp sendLen out sendLen displ root = Seq.gatherv e inp sendLen out sendLen displ root ∧
+    Gen.Seq.allgatherv_5 e inp sendLen out sendLen displ = Seq.allgatherv e inp sendLen out sendLen displ := by
   constructor
   · simpa [Gen.Seq.gatherv_6, Seq.gatherv] using Proofs.forCopy_eq_copyLoop e inp out 0 displ sendLen
   · simpa [Gen.Seq.allgatherv_5, Seq.allgatherv] using Proofs.forCopy_eq_copyLoop e inp out 0 displ sendLen
@@ -619,8 +659,8 @@ theorem seq_source_scatter {α} (e : Nat) (send recv : List α) (len root : Nat)
   refine ⟨?_, rfl⟩
   simpa [Gen.Seq.scatter_4, Seq.scatter] using Proofs.forCopy_eq_copyLoop e send recv 0 0 len
 
-theorem seq_source_scatterv {α} (e : Nat) (send : List α) (sendLen displ : Nat) (recv : List α) (recvLen root : Nat) :
-    Gen.Seq.scatterv_6 e send sendLen displ recv recvLen root = Seq.scatterv e send sendLen displ recv recvLen root := by
+theorem seq_source_scatterv {α} (e : Nat) (send : List α) (sendLen displ : Nat) (recv : List α) (root : Nat) :
+    Gen.Seq.scatterv_6 e send sendLen displ recv sendLen root = Seq.scatterv e send sendLen displ recv sendLen root := by
   simpa [Gen.Seq.scatterv_6, Seq.scatterv] using Proofs.forCopy_eq_copyLoop e send recv displ 0 sendLen
 
 theorem seq_source_allgather {α} (e : Nat) (sbuf : List α) (count : Nat) (rbuf dataIn dataOut : List α) :
